@@ -1,1 +1,645 @@
-fn main() { println!("placeholder"); }
+//! C03 harness — "Scaled and hinted outlines match FreeType for static fonts".
+//!
+//! (a) kernel shards: the arithmetic kernels that skrifa and FreeType must share are run on
+//!     boundary-dense + random operand tuples on BOTH real implementations (skrifa through the
+//!     `skrifa::verif` hooks / font-types, FreeType through freetype-sys FFI where the symbol is
+//!     exported); each case `(op, args, skrifa result, FreeType result)` is evaluated by the two
+//!     Coq models of coq/C03/Model.v (`check_case`).  Implementation-only oracle: the two real
+//!     results agree (modulo 2^32, the statement that is proved), and an i128 transcription of the
+//!     FreeType semantics agrees with skrifa for the kernels FreeType does not export.
+//! (b) the property itself: fauntlet's own FreeType/skrifa instances and RegularizingPen over every
+//!     static outline font of font-test-data x all glyphs x ppem grid x {unhinted, interpreter x
+//!     {mono, normal, light, lcd, vertical lcd}}; any path or advance difference is an oracle failure
+//!     with key "<font>:<glyph>:<ppem>:<mode>".
+use fauntlet::{Font, Hinting, HintingTarget, InstanceOptions, RegularizingPen};
+use font_types::{F26Dot6, Fixed};
+use freetype::ffi;
+use serde_json::json;
+use skrifa::outline::pen::PathElement;
+use skrifa::verif::{math, RoundMode, RoundState};
+use skrifa::GlyphId;
+use std::collections::BTreeMap;
+use std::panic::AssertUnwindSafe;
+use std::sync::atomic::{AtomicUsize, Ordering};
+use std::sync::Mutex;
+use vh::*;
+
+// ------------------------------------------------------------------------------------------
+// (a) kernels
+// ------------------------------------------------------------------------------------------
+
+const MODES: [RoundMode; 8] = [
+    RoundMode::Grid,
+    RoundMode::HalfGrid,
+    RoundMode::DoubleGrid,
+    RoundMode::DownToGrid,
+    RoundMode::UpToGrid,
+    RoundMode::Off,
+    RoundMode::Super,
+    RoundMode::Super45,
+];
+
+/// skrifa side; `None` = this op has no skrifa side, `Some(Err)` = panic
+fn run_sk(op: i64, a: &[i64]) -> Option<Result<i64, String>> {
+    let a: Vec<i32> = a.iter().map(|v| *v as i32).collect();
+    let r = match op {
+        1 => catch(move || math::mul(a[0], a[1]) as i64),
+        2 => catch(move || math::div(a[0], a[1]) as i64),
+        3 => catch(move || math::mul_div(a[0], a[1], a[2]) as i64),
+        4 => catch(move || math::mul_div_no_round(a[0], a[1], a[2]) as i64),
+        5 => catch(move || math::mul14(a[0], a[1]) as i64),
+        6 => catch(move || math::floor(a[0]) as i64),
+        7 => catch(move || math::round(a[0]) as i64),
+        8 => catch(move || math::ceil(a[0]) as i64),
+        9 => catch(move || math::round_pad(a[0], a[1]) as i64),
+        10..=17 => catch(move || {
+            let st = RoundState {
+                mode: MODES[(op - 10) as usize],
+                threshold: a[0],
+                phase: a[1],
+                period: a[2],
+            };
+            st.round(F26Dot6::from_bits(a[3])).to_bits() as i64
+        }),
+        // the scale step of FreeTypeScaler: F26Dot6::from_bits(v) * scale
+        18 => catch(move || (F26Dot6::from_bits(a[0]) * F26Dot6::from_bits(a[1])).to_bits() as i64),
+        // Outlines::compute_scale: F26Dot6(ppem*64) / F26Dot6(upem)
+        19 => catch(move || (F26Dot6::from_bits(a[0]) / F26Dot6::from_bits(a[1])).to_bits() as i64),
+        20 => catch(move || F26Dot6::from_bits(a[0]).round().to_bits() as i64),
+        23 => catch(move || Fixed::from_bits(a[0]).floor().to_bits() as i64),
+        _ => return None,
+    };
+    Some(r)
+}
+
+/// FreeType side through FFI (FT_Long = c_long = i64 on this platform)
+fn run_ft(op: i64, a: &[i64]) -> Option<i64> {
+    let l = |i: usize| a[i] as ffi::FT_Long;
+    unsafe {
+        Some(match op {
+            1 | 18 => ffi::FT_MulFix(l(0), l(1)) as i64,
+            2 | 19 => ffi::FT_DivFix(l(0), l(1)) as i64,
+            3 => ffi::FT_MulDiv(l(0), l(1), l(2)) as i64,
+            21 => ffi::FT_RoundFix(l(0)) as i64,
+            22 => ffi::FT_CeilFix(l(0)) as i64,
+            23 => ffi::FT_FloorFix(l(0)) as i64,
+            _ => return None,
+        })
+    }
+}
+
+/// Third, independent transcription (i128, LP64 `long` = i64 made explicit) of the FreeType
+/// functions that are not exported; used only by the implementation-only oracle.
+mod ftref {
+    fn l(v: i128) -> i128 {
+        v as i64 as i128
+    }
+    fn pix_floor(x: i128) -> i128 {
+        x & !63
+    }
+    pub fn mul14(a: i128, b: i128) -> i128 {
+        let mut r = a * b;
+        r += 0x2000 + (r >> 63);
+        (r >> 14) as i32 as i128
+    }
+    pub fn mul_div_no_round(a: i128, b: i128, c: i128) -> i128 {
+        let s = a.signum().min(0).abs() + b.signum().min(0).abs() + c.signum().min(0).abs();
+        let d = if c != 0 { (a.abs() * b.abs()) / c.abs() } else { 0x7FFF_FFFF };
+        if s % 2 == 1 {
+            l(-d)
+        } else {
+            l(d)
+        }
+    }
+    pub fn round(mode: usize, thr: i128, ph: i128, per: i128, d: i128) -> Option<i128> {
+        let pos = d >= 0;
+        let m = d.abs();
+        let clamp0 = |v: i128| if pos { v.max(0) } else { (-v).min(0) };
+        Some(match mode {
+            0 => clamp0(pix_floor(l(m + 32))),
+            1 => {
+                let v = l(pix_floor(m) + 32);
+                if pos {
+                    if v < 0 { 32 } else { v }
+                } else if -v > 0 {
+                    -32
+                } else {
+                    -v
+                }
+            }
+            2 => clamp0(l(m + 16) & !31),
+            3 => clamp0(pix_floor(m)),
+            4 => clamp0(pix_floor(l(m + 63))),
+            5 => d,
+            6 => {
+                if pos {
+                    let v = l(l(d + (thr - ph)) & -per) + ph;
+                    if v < 0 { ph } else { v }
+                } else {
+                    let v = l(-(l((thr - ph) - d) & -per)) - ph;
+                    if v > 0 { -ph } else { v }
+                }
+            }
+            7 => {
+                if per == 0 {
+                    return None;
+                }
+                if pos {
+                    let v = (l(d + (thr - ph)) / per) * per + ph;
+                    if v < 0 { ph } else { v }
+                } else {
+                    let v = -((l((thr - ph) - d) / per) * per) - ph;
+                    if v > 0 { -ph } else { v }
+                }
+            }
+            _ => return None,
+        })
+    }
+}
+
+fn in_i32(v: i128) -> bool {
+    v >= i32::MIN as i128 && v <= i32::MAX as i128
+}
+
+struct Kernels {
+    st: Stats,
+    cw: CaseWriter,
+}
+
+impl Kernels {
+    fn emit(&mut self, op: i64, a: Vec<i64>) {
+        let sk = run_sk(op, &a);
+        let ft = run_ft(op, &a);
+        let st = &mut self.st;
+        st.evaluations += 1;
+        st.count(&format!("kernel.op{:02}", op));
+        let key = format!("kernel:{}:{:?}", op, a);
+        if let Some(Err(_)) = &sk {
+            st.count(&format!("kernel.op{:02}.skrifa_panics", op));
+        }
+        // oracle 1: both real implementations agree (mod 2^32: FreeType's `long` is 64 bits wide)
+        if let (Some(Ok(s)), Some(f)) = (&sk, &ft) {
+            if !in_i32(*f as i128) {
+                st.count(&format!("kernel.op{:02}.ft_result_exceeds_i32", op));
+            }
+            if *s != (*f as i32) as i64 {
+                st.oracle_failure(json!({"key": key, "what": "skrifa kernel != FreeType (FFI) kernel mod 2^32",
+                                         "op": op, "args": a, "skrifa": s, "freetype": f}));
+            }
+        }
+        if let (Some(Err(e)), Some(f)) = (&sk, &ft) {
+            st.oracle_failure(json!({"key": key, "what": "skrifa kernel panics where FreeType returns", "op": op,
+                                     "args": a, "panic": e, "freetype": f}));
+        }
+        // oracle 2: i128 transcription of the unexported FreeType function, wherever skrifa returns and
+        // the FreeType value is representable
+        if let Some(Ok(s)) = &sk {
+            let z: Vec<i128> = a.iter().map(|v| *v as i128).collect();
+            let r = match op {
+                4 => Some(ftref::mul_div_no_round(z[0], z[1], z[2])),
+                5 => Some(ftref::mul14(z[0], z[1])),
+                10..=17 => ftref::round((op - 10) as usize, z[0], z[1], z[2], z[3]),
+                _ => None,
+            };
+            if let Some(r) = r {
+                // op 4: `d as i32` truncation is what skrifa documents; compare mod 2^32 there
+                let same = if op == 4 { *s == (r as i32) as i64 } else { *s as i128 == r };
+                if !same {
+                    st.oracle_failure(json!({"key": key, "what": "skrifa kernel != FreeType semantics (i128 transcription, LP64)",
+                                             "op": op, "args": a, "skrifa": s, "freetype_ref": r.to_string()}));
+                }
+            }
+        }
+        if a.iter().any(|v| v.abs() > 1) {
+            st.nontrivial(&key);
+        }
+        let skv: Vec<i128> = match &sk {
+            Some(Ok(v)) => vec![*v as i128],
+            _ => vec![],
+        };
+        let ftv: Vec<i128> = ft.iter().map(|v| *v as i128).collect();
+        if st.samples.len() < 3 {
+            st.sample(json!({"op": op, "args": a, "skrifa": format!("{:?}", sk), "freetype": format!("{:?}", ft)}));
+        }
+        self.cw.push(format!(
+            "({}, {}, {}, {})",
+            op,
+            czlist(a.iter().map(|v| *v as i128)),
+            czlist(skv),
+            czlist(ftv)
+        ));
+    }
+}
+
+fn kernels(k: &mut Kernels, rng: &mut Rng, thorough: bool) {
+    let grid = boundary_i32();
+    let mult = if thorough { 10 } else { 1 };
+    let any = |rng: &mut Rng, grid: &[i32]| -> i64 {
+        match rng.below(4) {
+            0 => rng.next_u32() as i32 as i64,
+            1 => rng.range(-70000, 70000),
+            _ => (*rng.pick(grid) as i64 + rng.range(-3, 3)).clamp(i32::MIN as i64, i32::MAX as i64),
+        }
+    };
+    let extra = [i32::MIN, i32::MAX, 0, 1, -1, 64, -64, 65536, -65536, 32768, -32768, i32::MIN + 1, 0x4000, -0x4000];
+    let sub: Vec<i32> = grid.iter().cloned().step_by(if thorough { 3 } else { 8 }).chain(extra).collect();
+    // binary kernels
+    for op in [1i64, 2, 5, 18, 19] {
+        for a in &sub {
+            for b in &sub {
+                if op == 1 || op == 2 || rng.chance(1, 3) {
+                    k.emit(op, vec![*a as i64, *b as i64]);
+                }
+            }
+        }
+        for _ in 0..1200 * mult {
+            let (a, b) = (any(rng, &grid), any(rng, &grid));
+            k.emit(op, vec![a, b]);
+        }
+    }
+    // realistic scale steps: font-unit coordinates x scale factors of real (ppem, upem) pairs
+    for upem in [16i64, 250, 1000, 1024, 2048, 2816, 4096, 16384] {
+        for ppem in [1i64, 6, 7, 8, 9, 11, 12, 13, 16, 17, 24, 40, 64, 72, 96, 128, 256, 1000, 4000] {
+            k.emit(19, vec![ppem * 64, upem]);
+            let scale = (F26Dot6::from_bits((ppem * 64) as i32) / F26Dot6::from_bits(upem as i32)).to_bits() as i64;
+            for _ in 0..(4 * mult) {
+                let v = rng.range(-upem * 2, upem * 2);
+                k.emit(18, vec![v, scale]);
+            }
+            // exact ties of the product: v * scale = (2k+1) * 0x8000
+            k.emit(18, vec![0x8000, scale]);
+            k.emit(18, vec![-0x8000, scale]);
+        }
+    }
+    // ternary kernels
+    let sub3: Vec<i32> = grid
+        .iter()
+        .cloned()
+        .step_by(if thorough { 12 } else { 29 })
+        .chain([i32::MIN, i32::MAX, 0, 1, -1, 64, -64, i32::MIN + 1])
+        .collect();
+    for op in [3i64, 4] {
+        for a in &sub3 {
+            for b in &sub3 {
+                for c in &sub3 {
+                    k.emit(op, vec![*a as i64, *b as i64, *c as i64]);
+                }
+            }
+        }
+        for _ in 0..1500 * mult {
+            let v = vec![any(rng, &grid), any(rng, &grid), any(rng, &grid)];
+            k.emit(op, v);
+        }
+        // the shapes the interpreter uses: DIV = (a, 64, b), MUL = (a, b, 64)
+        for _ in 0..500 * mult {
+            let (a, b) = (any(rng, &grid), any(rng, &grid));
+            k.emit(op, if op == 4 { vec![a, 64, b] } else { vec![a, b, 64] });
+        }
+    }
+    // unary kernels
+    for op in [6i64, 7, 8, 20, 21, 22, 23] {
+        for a in &grid {
+            k.emit(op, vec![*a as i64]);
+        }
+        for _ in 0..200 * mult {
+            let v = any(rng, &grid);
+            k.emit(op, vec![v]);
+        }
+        // ties
+        for q in -4i64..4 {
+            for d in [-1i64, 0, 1] {
+                k.emit(op, vec![q * 65536 + 32768 + d]);
+                k.emit(op, vec![q * 64 + 32 + d]);
+            }
+        }
+    }
+    for n in [32i64, 64, 1, 2, 0, -1, 16, 3, i32::MIN as i64, i32::MAX as i64] {
+        for a in grid.iter().step_by(3) {
+            k.emit(9, vec![*a as i64, n]);
+        }
+        for q in -3i64..3 {
+            for d in [-1i64, 0, 1] {
+                k.emit(9, vec![q * 32 + 16 + d, n]);
+            }
+        }
+    }
+    // round states: the six fixed modes ignore (threshold, phase, period)
+    for op in 10i64..=15 {
+        for d in &grid {
+            k.emit(op, vec![0, 0, 64, *d as i64]);
+        }
+        for q in -3i64..3 {
+            for d in [-1i64, 0, 1, 15, 16, 17, 31, 32, 33, 63] {
+                k.emit(op, vec![0, 0, 64, q * 64 + d]);
+            }
+        }
+        for _ in 0..150 * mult {
+            let v = vec![any(rng, &grid), any(rng, &grid), any(rng, &grid), any(rng, &grid)];
+            k.emit(op, v);
+        }
+    }
+    // SROUND / S45ROUND: every state the instruction decoder can produce (selector byte 0..255)
+    for op in [16i64, 17] {
+        for sel in 0..256i64 {
+            let grid_period: i64 = if op == 16 { 64 } else { 0x2D41 >> 8 }; // ttinterp.c SetSuperRound(0x4000 / 0x2D41)
+            let period = match sel & 0xC0 {
+                0 => grid_period / 2,
+                0x40 => grid_period,
+                0x80 => grid_period * 2,
+                _ => grid_period,
+            };
+            let phase = match sel & 0x30 {
+                0 => 0,
+                0x10 => period / 4,
+                0x20 => period / 2,
+                _ => period * 3 / 4,
+            };
+            let threshold = if sel & 0x0F == 0 { period - 1 } else { ((sel & 0x0F) - 4) * period / 8 };
+            let n = if thorough { 24 } else { 5 };
+            for _ in 0..n {
+                let d = if rng.chance(1, 2) { rng.range(-4096, 4096) } else { any(rng, &grid) };
+                k.emit(op, vec![threshold, phase, period, d]);
+            }
+            k.emit(op, vec![threshold, phase, period, 0]);
+            k.emit(op, vec![threshold, phase, period, -1]);
+        }
+        // arbitrary / degenerate states (period 0, negative, MIN, -1 ...)
+        for per in [0i64, 1, -1, 2, 3, 46, 64, -64, 128, i32::MIN as i64, i32::MAX as i64] {
+            for d in grid.iter().step_by(9) {
+                k.emit(op, vec![rng.range(-70, 70), rng.range(-70, 70), per, *d as i64]);
+            }
+        }
+        for _ in 0..1000 * mult {
+            let v = vec![any(rng, &grid), any(rng, &grid), any(rng, &grid), any(rng, &grid)];
+            k.emit(op, v);
+        }
+    }
+}
+
+/// replay of the `..._refuted` witnesses of coq/C03/Examples.v on the real pair of implementations
+fn witnesses(st: &mut Stats) {
+    let mut w = serde_json::Map::new();
+    // which FT_MulFix is linked? the portable FT_INT64 body would return 2^46-ish here
+    let big = run_ft(1, &[0x7FFF_FFFF, 0x7FFF_FFFF]).unwrap();
+    w.insert(
+        "ft_mulfix_variant".into(),
+        json!(if in_i32(big as i128) { "FT_MulFix_x86_64 (truncating to FT_Int32) — as modelled" } else { "portable FT_INT64 body (64-bit result)" }),
+    );
+    let mut both = |name: &str, op: i64, a: &[i64], exp_sk: i64, exp_ft: i64, st: &mut Stats| {
+        let sk = run_sk(op, a).unwrap();
+        let ft = run_ft(op, a).unwrap();
+        let confirmed = sk == Ok(exp_sk) && ft == exp_ft;
+        w.insert(name.into(), json!({"op": op, "args": a, "skrifa": format!("{:?}", sk), "freetype": ft, "confirmed_on_real_code": confirmed}));
+        if !confirmed {
+            st.count("witness_not_confirmed");
+        }
+    };
+    both("ftdivfix_refuted", 2, &[0x7FFF_FFFF, 1], -65536, 0x7FFF_FFFF_0000, st);
+    both("ftmuldiv_refuted", 3, &[0x7FFF_FFFF, 0x7FFF_FFFF, 1], 1, 0x3FFF_FFFF_0000_0001, st);
+    // strict-profile outcomes of the wrapping-reading witnesses (the harness is built with overflow checks)
+    let mut only = |name: &str, op: i64, a: &[i64]| {
+        let sk = run_sk(op, a).unwrap();
+        w.insert(name.into(), json!({"op": op, "args": a, "skrifa_overflow_checks_profile": format!("{:?}", sk)}));
+    };
+    only("muldiv_noround_wrapping_refuted", 4, &[i32::MIN as i64, 2, 4]);
+    only("round_grid_wrapping_refuted", 10, &[0, 0, 64, i32::MAX as i64]);
+    only("round_half_grid_wrapping_refuted", 11, &[0, 0, 64, i32::MAX as i64]);
+    st.v.insert("witnesses".into(), serde_json::Value::Object(w));
+}
+
+// ------------------------------------------------------------------------------------------
+// (b) the differential grid
+// ------------------------------------------------------------------------------------------
+
+const TARGETS: [(Option<Hinting>, &str); 6] = [
+    (None, "unhinted"),
+    (Some(Hinting::Interpreter(HintingTarget::Mono)), "mono"),
+    (Some(Hinting::Interpreter(HintingTarget::Normal)), "normal"),
+    (Some(Hinting::Interpreter(HintingTarget::Light)), "light"),
+    (Some(Hinting::Interpreter(HintingTarget::Lcd)), "lcd"),
+    (Some(Hinting::Interpreter(HintingTarget::VerticalLcd)), "vlcd"),
+];
+
+#[derive(Default)]
+struct GridOut {
+    failures: Vec<serde_json::Value>,
+    counters: BTreeMap<String, u64>,
+    nontrivial: Vec<u64>,
+    evaluations: u64,
+    sample: Option<serde_json::Value>,
+}
+
+fn path_str(p: &[PathElement]) -> String {
+    let mut s = p.iter().map(|e| format!("{e:?}")).collect::<Vec<_>>().join("; ");
+    if s.len() > 3000 {
+        s.truncate(3000);
+        s.push_str(" ...");
+    }
+    s
+}
+
+fn font_files() -> Vec<std::path::PathBuf> {
+    let mut v = vec![];
+    for sub in ["ttf", "ttc"] {
+        let d = std::path::Path::new("/repo/font-test-data/test_data").join(sub);
+        if let Ok(rd) = std::fs::read_dir(&d) {
+            for e in rd.flatten() {
+                let p = e.path();
+                let ext = p.extension().map(|e| e.to_string_lossy().to_lowercase()).unwrap_or_default();
+                if ["ttf", "otf", "ttc"].contains(&ext.as_str()) {
+                    v.push(p);
+                }
+            }
+        }
+    }
+    v.sort();
+    // development aid: C03_FONT_FILTER=<substring> restricts the grid to matching file names
+    if let Ok(f) = std::env::var("C03_FONT_FILTER") {
+        v.retain(|p| p.to_string_lossy().contains(&f));
+    }
+    v
+}
+
+fn run_grid_task(path: &std::path::Path, ppem: u32, out: &mut GridOut) {
+    let name = path.file_name().unwrap().to_string_lossy().to_string();
+    let Some(mut font) = Font::new(path) else {
+        *out.counters.entry(format!("grid.font_unreadable.{name}")).or_default() += 1;
+        return;
+    };
+    for font_ix in 0..font.count() {
+        let fname = if font.count() > 1 { format!("{name}#{font_ix}") } else { name.clone() };
+        if font.axis_count(font_ix) != 0 {
+            // the property is about static fonts
+            *out.counters.entry("grid.skipped_variable_font_instances".into()).or_default() += 1;
+            continue;
+        }
+        for (hinting, mode) in TARGETS {
+            if ppem == 0 && hinting.is_some() {
+                continue;
+            }
+            let options = InstanceOptions::new(font_ix, ppem, &[], hinting);
+            let Some((mut ft, mut sk)) = font.instantiate(&options) else {
+                *out.counters.entry(format!("grid.not_instantiable.{fname}")).or_default() += 1;
+                continue;
+            };
+            if !ft.is_scalable() {
+                *out.counters.entry(format!("grid.not_scalable.{fname}")).or_default() += 1;
+                continue;
+            }
+            *out.counters.entry(format!("grid.instances.{mode}")).or_default() += 1;
+            let is_scaled = ppem != 0;
+            let mut ft_outline: Vec<PathElement> = vec![];
+            let mut sk_outline: Vec<PathElement> = vec![];
+            for gid in 0..sk.glyph_count() {
+                let g = GlyphId::from(gid);
+                let key = format!("{fname}:{gid}:{ppem}:{mode}");
+                ft_outline.clear();
+                sk_outline.clear();
+                let ft_adv = ft.outline(g, &mut RegularizingPen::new(&mut ft_outline, is_scaled));
+                let sk_res = std::panic::catch_unwind(AssertUnwindSafe(|| {
+                    sk.outline(g, &mut RegularizingPen::new(&mut sk_outline, is_scaled))
+                }));
+                out.evaluations += 1;
+                let Some(ft_adv) = ft_adv else {
+                    // FreeType refuses the glyph: nothing to compare against
+                    *out.counters.entry("grid.ft_refused_glyph".into()).or_default() += 1;
+                    continue;
+                };
+                match sk_res {
+                    Err(_) => {
+                        out.failures.push(json!({"key": key, "what": "skrifa panics, FreeType draws", "freetype": path_str(&ft_outline)}));
+                        continue;
+                    }
+                    Ok(Err(e)) => {
+                        *out.counters.entry("grid.skrifa_error_ft_ok".into()).or_default() += 1;
+                        out.failures.push(json!({"key": key, "what": format!("skrifa returns error {e:?}, FreeType draws"),
+                                                 "freetype": path_str(&ft_outline)}));
+                        continue;
+                    }
+                    Ok(Ok(sk_adv)) => {
+                        *out.counters.entry("grid.glyphs_compared".into()).or_default() += 1;
+                        if !ft_outline.is_empty() {
+                            out.nontrivial.push(fnv(key.as_bytes()));
+                        }
+                        if out.sample.is_none() && ft_outline.len() > 3 && gid > 2 && ppem != 0 && hinting.is_some() {
+                            out.sample = Some(json!({"key": key, "advance_ft": ft_adv, "advance_skrifa": sk_adv, "path": path_str(&ft_outline)}));
+                        }
+                        if ft_outline != sk_outline {
+                            out.failures.push(json!({"key": key, "what": "outline differs", "freetype": path_str(&ft_outline),
+                                                     "skrifa": path_str(&sk_outline)}));
+                        } else if let Some(sk_adv) = sk_adv {
+                            *out.counters.entry("grid.advances_compared".into()).or_default() += 1;
+                            if sk_adv != ft_adv {
+                                out.failures.push(json!({"key": key, "what": "advance width differs", "freetype": ft_adv, "skrifa": sk_adv}));
+                            }
+                        } else {
+                            *out.counters.entry("grid.advance_not_reported_by_skrifa".into()).or_default() += 1;
+                        }
+                    }
+                }
+            }
+        }
+    }
+}
+
+fn grid(st: &mut Stats, thorough: bool) {
+    let mut ppems: Vec<u32> = vec![0];
+    if thorough {
+        ppems.extend(6..=64);
+        ppems.extend([72, 96, 128, 256, 1000]);
+    } else {
+        ppems.extend(8..=40);
+    }
+    let files = font_files();
+    let mut tasks: Vec<(std::path::PathBuf, u32)> = vec![];
+    for f in &files {
+        for p in &ppems {
+            tasks.push((f.clone(), *p));
+        }
+    }
+    let next = AtomicUsize::new(0);
+    let results: Mutex<Vec<(usize, GridOut)>> = Mutex::new(vec![]);
+    let nthreads = std::thread::available_parallelism().map(|n| n.get()).unwrap_or(8).min(16);
+    std::thread::scope(|s| {
+        for _ in 0..nthreads {
+            s.spawn(|| loop {
+                let i = next.fetch_add(1, Ordering::Relaxed);
+                if i >= tasks.len() {
+                    break;
+                }
+                let mut out = GridOut::default();
+                run_grid_task(&tasks[i].0, tasks[i].1, &mut out);
+                results.lock().unwrap().push((i, out));
+            });
+        }
+    });
+    let mut results = results.into_inner().unwrap();
+    results.sort_by_key(|r| r.0);
+    let mut failures = vec![];
+    for (_, out) in results {
+        st.evaluations += out.evaluations;
+        for (k, v) in out.counters {
+            st.add(&k, v);
+        }
+        for h in out.nontrivial {
+            st.distinct.insert(h);
+        }
+        if let Some(s) = out.sample {
+            if st.samples.len() < 5 {
+                st.samples.push(s);
+            }
+        }
+        failures.extend(out.failures);
+    }
+    st.v.insert("grid_fonts".into(), files.len().into());
+    st.v.insert("grid_ppem_sizes".into(), ppems.len().into());
+    st.v.insert("grid_mismatches".into(), failures.len().into());
+    // a compact list of all failing keys (the oracle_failures list itself is capped)
+    let keys: Vec<String> = failures.iter().map(|f| format!("{} | {}", f["key"].as_str().unwrap_or(""), f["what"].as_str().unwrap_or(""))).collect();
+    st.v.insert("grid_mismatch_keys".into(), json!(keys.iter().take(20000).collect::<Vec<_>>()));
+    for f in failures {
+        st.oracle_failure(f);
+    }
+}
+
+fn main() {
+    let args: Vec<String> = std::env::args().collect();
+    let thorough = tier_is_thorough(&args);
+    let seed = seed_from_env();
+    let dir = out_dir(&args, "C03");
+    let mut rng = Rng::new(seed);
+    let mut st = Stats::new();
+    // (b) first (skrifa panics inside the grid are caught; keep the default hook silent)
+    silence_panics();
+    let t0 = std::time::Instant::now();
+    grid(&mut st, thorough);
+    let t_grid = t0.elapsed().as_secs_f64();
+    // (a)
+    let cw = CaseWriter::new(
+        &dir,
+        "From Coq Require Import ZArith List. Import ListNotations. Open Scope Z_scope.\nFrom FV Require Import Lib.Cases C03.Model.",
+        "Z * list Z * list Z * list Z",
+        "check_case",
+        3500,
+    );
+    let mut k = Kernels { st, cw };
+    kernels(&mut k, &mut rng, thorough);
+    let Kernels { mut st, cw } = k;
+    witnesses(&mut st);
+    let shards = cw.finish();
+    st.v.insert("shards".into(), shards.into());
+    st.v.insert("model_cases".into(), cw.len().into());
+    st.v.insert("grid_seconds".into(), json!(t_grid));
+    st.write(
+        &dir,
+        "(a) kernels: boundary-dense grid (0, +-2^k, +-(2^k+-1..3), MIN, MAX) crossed pairwise/triple-wise + random + rounding ties + every SROUND/S45ROUND selector; non-trivial = some operand of magnitude > 1 (distinct by (op,args)). (b) differential grid: every static font of font-test-data x every glyph x ppem grid x {unhinted, mono, normal, light, lcd, vlcd}; non-trivial = FreeType path non-empty (distinct by font:glyph:ppem:mode)",
+    );
+    println!(
+        "kernel_cases={} shards={} grid_glyph_comparisons={} grid_seconds={:.1} oracle_failures={}",
+        cw.len(),
+        shards,
+        st.counters.get("grid.glyphs_compared").cloned().unwrap_or(0),
+        t_grid,
+        st.counters.get("oracle_failures").cloned().unwrap_or(0)
+    );
+}
